@@ -52,7 +52,8 @@ Pool == <<
   [name |-> "td", kind |-> "text",    keys |-> <<"k1">>,        ty |-> "string"],
   [name |-> "tm", kind |-> "gauge",   keys |-> <<>>,            ty |-> "int"],
   [name |-> "cf", kind |-> "counter", keys |-> <<>>,            ty |-> "float"],
-  [name |-> "ti", kind |-> "timer",   keys |-> <<>>,            ty |-> "int"] >>
+  [name |-> "ti", kind |-> "timer",   keys |-> <<>>,            ty |-> "int"],
+  [name |-> "hh", kind |-> "histogram", keys |-> <<>>,          ty |-> "buckets"] >>
 PoolOfTy(ty) == SelectSeq(Pool, LAMBDA d : d.ty = ty /\ d.name # "tm")
 PoolDim == SelectSeq(Pool, LAMBDA d : d.keys # <<>>)
 
@@ -156,6 +157,8 @@ GenExprT(ty, scope, depth, s) ==
          ELSE IF c = 18 THEN LET a == GenExpr("string", scope, depth - 1, s1) IN G(Call("int", <<a.x>>), a.s)
          ELSE IF c = 19 THEN LET a == GenLeafNoVar("string", scope, s1)
                              IN G(Call("strtol", <<a.x, [n |-> "int", v |-> <<8, 10, 16, 2>>[Ch(a.s, 4)]]>>), Rnd(a.s))
+         ELSE IF Profile # "fmt" /\ Coin(s1, 1, 2) THEN      \* the VALUE of an increment / decrement
+              LET d == <<"gi", "ci", "ti">>[Ch(s1, 3)] IN G([n |-> IF d = "gi" /\ Coin(s2, 1, 2) THEN "dec" ELSE "inc", m |-> d, idx |-> <<>>], s2)
          ELSE GenLeaf("int", scope, s1)
     [] ty = "float" ->
          LET c == Ch(s, 12) IN
@@ -284,6 +287,8 @@ GenWrite(scope, depth, s) ==          \* an assignment-like statement
        IN G([n |-> "expr", e |-> [n |-> "addassign", m |-> d.name, idx |-> ix.x, r |-> r.x]], r.s)
   ELSE IF c = 13 THEN \* tm = timestamp()
        G([n |-> "expr", e |-> [n |-> "assign", m |-> "tm", idx |-> <<>>, r |-> Call("timestamp", <<>>)]], s1)
+  ELSE IF Profile \in {"lang", "time", "loose"} /\ Coin(s1, 1, 4) THEN      \* ++ on a histogram: accepted, panics in the VM
+       G([n |-> "expr", e |-> [n |-> "inc", m |-> "hh", idx |-> <<>>]], s2)
   ELSE                \* settime(int)
        LET a == GenExpr("int", scope, IF Profile = "loose" THEN 1 ELSE 0, s1) IN G([n |-> "expr", e |-> Call("settime", <<a.x>>)], a.s)
 
@@ -437,9 +442,13 @@ GenCase(seed) ==
       decls0 == SelectSeq(Pool, LAMBDA d : d.name \in used)
       \* every metric gets a (never executed) typed write FIRST - before the decorator definitions too - so
       \* that the compiler's inference of the declared value type does not depend on statement order
-      pre == [i \in 1..Len(decls0) |-> TypingStmt(decls0[i])]
-      declsA == [i \in 1..Len(decls0) |-> [name |-> decls0[i].name, kind |-> decls0[i].kind, keys |-> decls0[i].keys,
-                                          ty |-> decls0[i].ty, hidden |-> Coin(Rnd(bd.s) + i, 1, 6)]]
+      typed0 == SelectSeq(decls0, LAMBDA d : d.kind # "histogram")
+      pre == [i \in 1..Len(typed0) |-> TypingStmt(typed0[i])]
+      declsA == [i \in 1..Len(decls0) |-> IF decls0[i].kind = "histogram"
+                                          THEN [name |-> decls0[i].name, kind |-> "histogram", keys |-> <<>>, ty |-> "buckets", hidden |-> FALSE,
+                                                buckets |-> << <<1,1>>, <<2,1>>, <<4,1>> >>]
+                                          ELSE [name |-> decls0[i].name, kind |-> decls0[i].kind, keys |-> decls0[i].keys,
+                                                ty |-> decls0[i].ty, hidden |-> Coin(Rnd(bd.s) + i, 1, 6)]]
       \* formatter profile (C23): exported names, limits and a histogram with small boundaries
       declsF == [i \in 1..Len(decls0) |-> [name |-> decls0[i].name, kind |-> decls0[i].kind, keys |-> decls0[i].keys,
                                           ty |-> decls0[i].ty, hidden |-> Coin(Rnd(bd.s) + i, 1, 3),
